@@ -1,5 +1,7 @@
 /-! C05, header layer of `DeviceLocal.ProcessCmd` over a datagram in which everything the code dereferences before
-    it reaches the feature is optional. `guards = false` is the code as written, `true` the first group of repairs. -/
+    it reaches the feature is optional. The model is a family indexed by `Cfg`: every flag `false` is the code as
+    written at the pinned commit, a flag `true` is the corresponding minimal repair (DESIGN §9, first repair group;
+    `noResOnRes` is the C01 repair, which changes the outcome class of one row of this layer). -/
 namespace Spine.Hdr
 
 inductive Cls | read | reply | notify | write | call | result deriving DecidableEq, Repr
@@ -26,28 +28,40 @@ inductive Pre
   | proceed                        -- goes on to the write gate and the feature
 deriving DecidableEq, Repr
 
+/-- which repairs the tree under test contains (probed by the harness on the real code) -/
+structure Cfg where
+  addr : Bool        -- `ProcessCmd` rejects a datagram without source or destination address
+  filter : Bool      -- `ExtractFilter` skips a filter without `cmdControl`
+  pmo : Bool         -- `PrintMessageOverview` tolerates absent reference / result data (incoming and outgoing)
+  noResOnRes : Bool  -- a `result` to an unknown destination is not answered (repair of C01)
+deriving DecidableEq, Repr
+
+def Cfg.asWritten : Cfg := ⟨false, false, false, false⟩
+def Cfg.repaired : Cfg := ⟨true, true, true, true⟩
+
 /-- every reply or result copies the request's msgCounter into msgCounterReference; the sender's
     `PrintMessageOverview` dereferences it -/
-def answerWith (guards : Bool) (d : Raw) (p : Pre) : Pre :=
-  if !guards && !d.msgCounter then .panic "PrintMessageOverview(nil reference, outgoing)" else p
+def answerWith (c : Cfg) (d : Raw) (p : Pre) : Pre :=
+  if !c.pmo && !d.msgCounter then .panic "PrintMessageOverview(nil reference, outgoing)" else p
 
-def pre (guards : Bool) (d : Raw) : Pre :=
-  if guards && (d.src.isNone || d.dst.isNone) then .dropped else
+def pre (c : Cfg) (d : Raw) : Pre :=
+  if c.addr && (d.src.isNone || d.dst.isNone) then .dropped else
   if d.dst.isNone then .panic "FeatureByAddress(nil destination)" else
   if d.cmds = 0 then .dropped else
-  if !guards && d.filterWithoutCmdControl then .panic "ExtractFilter(nil cmdControl)" else
+  if !c.filter && d.filterWithoutCmdControl then .panic "ExtractFilter(nil cmdControl)" else
   if d.src.isNone then .panic "ProcessCmd(nil source)" else
   if !d.srcKnown then .dropped else
-  if d.cls.isNone then answerWith guards d .errorResult else
-  if !d.dstKnown then answerWith guards d .errorResult else
+  if d.cls.isNone then answerWith c d .errorResult else
+  if !d.dstKnown then
+    (if c.noResOnRes && d.cls = some .result then .dropped else answerWith c d .errorResult) else
   -- PrintMessageOverview, evaluated although debug logging is off
-  if !guards && (d.cls = some .reply || d.cls = some .result) && d.ref.isNone then .panic "PrintMessageOverview(nil reference)" else
-  if !guards && d.cls = some .result && !(d.resultData && d.errorNumber) then .panic "PrintMessageOverview(nil result data)" else
-  if d.responds then answerWith guards d .proceed else .proceed
+  if !c.pmo && (d.cls = some .reply || d.cls = some .result) && d.ref.isNone then .panic "PrintMessageOverview(nil reference)" else
+  if !c.pmo && d.cls = some .result && !(d.resultData && d.errorNumber) then .panic "PrintMessageOverview(nil result data)" else
+  if d.responds then answerWith c d .proceed else .proceed
 
 /-- C05, header layer, as written: exactly these datagrams panic -/
 theorem pre_panics_iff (d : Raw) :
-    (∃ s, pre false d = .panic s) ↔
+    (∃ s, pre Cfg.asWritten d = .panic s) ↔
       (d.dst = none ∨
        (d.cmds ≠ 0 ∧ d.filterWithoutCmdControl = true) ∨
        (d.cmds ≠ 0 ∧ d.src = none) ∨
@@ -56,17 +70,81 @@ theorem pre_panics_iff (d : Raw) :
        (d.cmds ≠ 0 ∧ d.src ≠ none ∧ d.srcKnown = true ∧ d.dstKnown = true ∧
           (((d.cls = some .reply ∨ d.cls = some .result) ∧ d.ref = none) ∨
            (d.cls = some .result ∧ (d.resultData = false ∨ d.errorNumber = false))))) := by
-  unfold pre answerWith
+  unfold pre answerWith Cfg.asWritten
   simp only [Bool.false_and, Bool.false_eq_true, if_false, Bool.not_false, Bool.true_and]
   repeat' split
   all_goals simp_all
 
-/-- C05, header layer, repaired: no datagram panics -/
-theorem pre_total (d : Raw) : ∀ s, pre true d ≠ .panic s := by
+/-- C05, header layer: a member with the three guards panics on no datagram (whatever the C01 flag) -/
+theorem pre_total (c : Cfg) (ha : c.addr = true) (hf : c.filter = true) (hp : c.pmo = true) (d : Raw) :
+    ∀ s, pre c d ≠ .panic s := by
   intro s
   unfold pre answerWith
-  simp only [Bool.true_and, Bool.not_true, Bool.false_and, Bool.false_eq_true, if_false]
+  simp only [ha, hf, hp, Bool.true_and, Bool.not_true, Bool.false_and, Bool.false_eq_true, if_false]
   repeat' split
   all_goals simp_all
+
+/-- the right-hand side of the family characterisation: each disjunct is switched off by its flag -/
+def PanicGuard (c : Cfg) (d : Raw) : Prop :=
+  ¬ (c.addr = true ∧ (d.src = none ∨ d.dst = none)) ∧
+  (d.dst = none ∨
+   (c.filter = false ∧ d.cmds ≠ 0 ∧ d.filterWithoutCmdControl = true) ∨
+   (d.cmds ≠ 0 ∧ d.src = none) ∨
+   (c.pmo = false ∧ d.cmds ≠ 0 ∧ d.src ≠ none ∧ d.srcKnown = true ∧ d.msgCounter = false ∧
+      (d.cls = none ∨ (d.dstKnown = false ∧ ¬ (c.noResOnRes = true ∧ d.cls = some .result)) ∨
+       (d.dstKnown = true ∧ d.responds = true))) ∨
+   (c.pmo = false ∧ d.cmds ≠ 0 ∧ d.src ≠ none ∧ d.srcKnown = true ∧ d.dstKnown = true ∧
+      (((d.cls = some .reply ∨ d.cls = some .result) ∧ d.ref = none) ∨
+       (d.cls = some .result ∧ (d.resultData = false ∨ d.errorNumber = false)))))
+
+set_option linter.unusedSimpArgs false
+
+macro "hdr_family" d:ident : tactic => `(tactic|
+  (unfold pre answerWith PanicGuard
+   simp only [Bool.false_and, Bool.true_and, Bool.false_eq_true, if_false, Bool.not_false, Bool.not_true, if_true,
+     false_and, not_false_eq_true, true_and, and_true]
+   cases hs : ($d).src <;> cases hd : ($d).dst <;>
+     try simp only [Option.isNone_none, Option.isNone_some, Bool.or_true, Bool.true_or, Bool.or_false, if_true, if_false,
+       Bool.false_eq_true]
+   all_goals (repeat' split)
+   all_goals simp_all))
+
+theorem family_0000 (d : Raw) : (∃ s, pre ⟨false, false, false, false⟩ d = .panic s) ↔ PanicGuard ⟨false, false, false, false⟩ d := by hdr_family d
+theorem family_0001 (d : Raw) : (∃ s, pre ⟨false, false, false, true⟩ d = .panic s) ↔ PanicGuard ⟨false, false, false, true⟩ d := by hdr_family d
+theorem family_0010 (d : Raw) : (∃ s, pre ⟨false, false, true, false⟩ d = .panic s) ↔ PanicGuard ⟨false, false, true, false⟩ d := by hdr_family d
+theorem family_0011 (d : Raw) : (∃ s, pre ⟨false, false, true, true⟩ d = .panic s) ↔ PanicGuard ⟨false, false, true, true⟩ d := by hdr_family d
+theorem family_0100 (d : Raw) : (∃ s, pre ⟨false, true, false, false⟩ d = .panic s) ↔ PanicGuard ⟨false, true, false, false⟩ d := by hdr_family d
+theorem family_0101 (d : Raw) : (∃ s, pre ⟨false, true, false, true⟩ d = .panic s) ↔ PanicGuard ⟨false, true, false, true⟩ d := by hdr_family d
+theorem family_0110 (d : Raw) : (∃ s, pre ⟨false, true, true, false⟩ d = .panic s) ↔ PanicGuard ⟨false, true, true, false⟩ d := by hdr_family d
+theorem family_0111 (d : Raw) : (∃ s, pre ⟨false, true, true, true⟩ d = .panic s) ↔ PanicGuard ⟨false, true, true, true⟩ d := by hdr_family d
+theorem family_1000 (d : Raw) : (∃ s, pre ⟨true, false, false, false⟩ d = .panic s) ↔ PanicGuard ⟨true, false, false, false⟩ d := by hdr_family d
+theorem family_1001 (d : Raw) : (∃ s, pre ⟨true, false, false, true⟩ d = .panic s) ↔ PanicGuard ⟨true, false, false, true⟩ d := by hdr_family d
+theorem family_1010 (d : Raw) : (∃ s, pre ⟨true, false, true, false⟩ d = .panic s) ↔ PanicGuard ⟨true, false, true, false⟩ d := by hdr_family d
+theorem family_1011 (d : Raw) : (∃ s, pre ⟨true, false, true, true⟩ d = .panic s) ↔ PanicGuard ⟨true, false, true, true⟩ d := by hdr_family d
+theorem family_1100 (d : Raw) : (∃ s, pre ⟨true, true, false, false⟩ d = .panic s) ↔ PanicGuard ⟨true, true, false, false⟩ d := by hdr_family d
+theorem family_1101 (d : Raw) : (∃ s, pre ⟨true, true, false, true⟩ d = .panic s) ↔ PanicGuard ⟨true, true, false, true⟩ d := by hdr_family d
+theorem family_1110 (d : Raw) : (∃ s, pre ⟨true, true, true, false⟩ d = .panic s) ↔ PanicGuard ⟨true, true, true, false⟩ d := by hdr_family d
+theorem family_1111 (d : Raw) : (∃ s, pre ⟨true, true, true, true⟩ d = .panic s) ↔ PanicGuard ⟨true, true, true, true⟩ d := by hdr_family d
+
+/-- the family: for every member, exactly which datagrams panic -/
+theorem pre_panics_iff_cfg (c : Cfg) (d : Raw) : (∃ s, pre c d = .panic s) ↔ PanicGuard c d := by
+  obtain ⟨a, f, p, n⟩ := c
+  cases a <;> cases f <;> cases p <;> cases n
+  · exact family_0000 d
+  · exact family_0001 d
+  · exact family_0010 d
+  · exact family_0011 d
+  · exact family_0100 d
+  · exact family_0101 d
+  · exact family_0110 d
+  · exact family_0111 d
+  · exact family_1000 d
+  · exact family_1001 d
+  · exact family_1010 d
+  · exact family_1011 d
+  · exact family_1100 d
+  · exact family_1101 d
+  · exact family_1110 d
+  · exact family_1111 d
 
 end Spine.Hdr
